@@ -217,6 +217,7 @@ type event struct {
 	Mem       []evMember   `json:"mem,omitempty"`
 	Now       *int64       `json:"now,omitempty"`
 	Client    int          `json:"client,omitempty"`
+	Late      int          `json:"late"` // 0: asked at now+1/4, before the change of that second; 1: right after the change stamped now
 	Shards    []evShard    `json:"shards"`
 	Lookbacks []evLookback `json:"lookbacks"`
 }
@@ -277,9 +278,13 @@ func (r *recorder) sleepUntil(d time.Duration) {
 	}
 }
 
-func sizesFor(n, zones int, rnd *rand.Rand) []int {
+func sizesFor(n, zones, maxSize int, rnd *rand.Rand) []int {
 	set := map[int]bool{}
-	if n <= 7 {
+	if maxSize > 0 {
+		for s := 0; s <= maxSize; s++ {
+			set[s] = true
+		}
+	} else if n <= 7 {
 		for s := 0; s <= n+2; s++ {
 			set[s] = true
 		}
@@ -319,7 +324,9 @@ type instPlan struct {
 	tight            bool
 	events           int
 	tenants          int
-	roAtStart        int // number of read-only instances at the start
+	roAtStart        int   // number of read-only instances at the start
+	zoneSizes        []int // initial zone populations (unbalanced zones); nil: round robin over `zones`
+	oversize         bool  // ask for every size up to 2n + zones
 }
 
 // The epoch of a history in seconds on the trace's own axis: initial instances are registered at
@@ -332,8 +339,18 @@ func (r *recorder) instHistory(p instPlan) {
 	w := &instWorld{insts: map[int]*inst{}, nextID: 1, za: p.za}
 	used := map[uint32]bool{}
 	abssec := func(s int64) int64 { return r.epoch.Unix() + s }
+	zoneOf := func(i int) int { return 1 + i%p.zones }
+	if p.zoneSizes != nil {
+		var zs []int
+		for z, k := range p.zoneSizes {
+			for j := 0; j < k; j++ {
+				zs = append(zs, z+1)
+			}
+		}
+		zoneOf = func(i int) int { return zs[i] }
+	}
 	for i := 0; i < p.n; i++ {
-		z := 1 + i%p.zones
+		z := zoneOf(i)
 		in := &inst{id: w.nextID, zone: z, tokens: freshTokens(rnd, p.tokens, used, p.tight), reg: abssec(1)}
 		if rnd.Intn(12) == 0 {
 			in.reg = 0 // registration time unknown (old lifecycler): never "inside the window"
@@ -386,11 +403,15 @@ func (r *recorder) instHistory(p instPlan) {
 	}
 	emitRing(0)
 
-	query := func(client int, rr *ring.Ring, now time.Time, tenants []string, lookbacks []int) {
+	query := func(client, late int, rr *ring.Ring, now time.Time, tenants []string, lookbacks []int) {
 		nowSec := r.sec(now)
 		ids := w.ids()
-		ev := event{E: "q", Now: &nowSec, Client: client}
-		sizes := sizesFor(len(ids), len(w.zones()), rnd)
+		ev := event{E: "q", Now: &nowSec, Client: client, Late: late}
+		maxSize := 0
+		if p.oversize {
+			maxSize = 2*len(ids) + len(w.zones())
+		}
+		sizes := sizesFor(len(ids), len(w.zones()), maxSize, rnd)
 		plain := map[string]int{}
 		for _, tn := range tenants {
 			for _, size := range sizes {
@@ -411,8 +432,11 @@ func (r *recorder) instHistory(p instPlan) {
 				}()
 			}
 			for _, L := range lookbacks {
+				if late == 1 && tn != tenants[0] {
+					break // right after a change: look-back answers for one identifier only
+				}
 				for _, size := range sizes {
-					if len(sizes) > 8 && rnd.Intn(2) == 0 {
+					if len(sizes) > 8 && !p.oversize && rnd.Intn(2) == 0 {
 						continue
 					}
 					func() {
@@ -454,7 +478,7 @@ func (r *recorder) instHistory(p instPlan) {
 			}
 		}
 		sort.Ints(lbs)
-		query(1, c1, now, tenants, lbs)
+		query(1, 0, c1, now, tenants, lbs)
 		// a second client, built independently from the same content, asked after unrelated queries
 		c2, stop, err := abs.NewRing(w.desc(r.epoch), ringCfg(p.za, true))
 		if err != nil {
@@ -465,12 +489,8 @@ func (r *recorder) instHistory(p instPlan) {
 			_ = c2.ShuffleShard(tn, 1+rnd.Intn(3))
 			_ = c2.ShuffleShardWithLookback(tn, 2, time.Duration(1+rnd.Intn(5))*time.Second, now)
 		}
-		query(2, c2, now, tenants[:1+rnd.Intn(len(tenants))], lbs[:1])
+		query(2, 0, c2, now, tenants[:1+rnd.Intn(len(tenants))], lbs[:1])
 		stop()
-		if rnd.Intn(3) == 0 {
-			// the first client again, later in the same second (cached answers)
-			query(1, c1, now, tenants[:1], lbs)
-		}
 		if step == p.events {
 			break
 		}
@@ -501,8 +521,16 @@ func (r *recorder) instHistory(p instPlan) {
 				delete(w.insts, ids[rnd.Intn(len(ids))])
 				changed = true
 			}
-		case k < 9: // read-only toggle
+		case k < 9: // read-only toggle; half of the time of an instance that is read-only now (back to read-write)
 			in := w.insts[ids[rnd.Intn(len(ids))]]
+			if rnd.Intn(2) == 0 {
+				for _, id := range ids {
+					if w.insts[id].ro {
+						in = w.insts[id]
+						break
+					}
+				}
+			}
 			in.ro = !in.ro
 			in.rots = stampAbs
 			changed = true
@@ -514,6 +542,9 @@ func (r *recorder) instHistory(p instPlan) {
 			store.Push(w.desc(time.Now()))
 			synctest.Wait()
 			emitRing(T)
+			// the same client again in the very second of the change (the wall clock the plain
+			// ShuffleShard reads is now = stamp of the change): same content => same answers as at any later time
+			query(1, 1, c1, time.Now(), tenants, lbs[:1])
 		}
 	}
 	_ = lastChange
@@ -616,10 +647,10 @@ func (r *recorder) partHistory(p partPlan) {
 		}
 	}
 
-	query := func(client int, pr *ring.PartitionRing, now time.Time, tenants []string, lookbacks []int) {
+	query := func(client, late int, pr *ring.PartitionRing, now time.Time, tenants []string, lookbacks []int) {
 		nowSec := r.sec(now)
-		ev := event{E: "q", Now: &nowSec, Client: client}
-		sizes := sizesFor(len(ps), 1, rnd)
+		ev := event{E: "q", Now: &nowSec, Client: client, Late: late}
+		sizes := sizesFor(len(ps), 1, 0, rnd)
 		toInts := func(x []int32) []int {
 			out := make([]int, len(x))
 			for i, v := range x {
@@ -707,7 +738,7 @@ func (r *recorder) partHistory(p partPlan) {
 			}
 		}
 		sort.Ints(lbs)
-		query(1, c1, now, tenants, lbs)
+		query(1, 0, c1, now, tenants, lbs)
 		c2 := build()
 		if c2 == nil {
 			return
@@ -716,10 +747,7 @@ func (r *recorder) partHistory(p partPlan) {
 			_, _ = c2.ShuffleShard(tn, 1+rnd.Intn(3))
 			_, _ = c2.ShuffleShardWithLookback(tn, 2, time.Duration(1+rnd.Intn(5))*time.Second, now)
 		}
-		query(2, c2, now, tenants[:1+rnd.Intn(len(tenants))], lbs[:1])
-		if rnd.Intn(3) == 0 {
-			query(1, c1, now, tenants[:1], lbs)
-		}
+		query(2, 0, c2, now, tenants[:1+rnd.Intn(len(tenants))], lbs[:1])
 		if step == p.events {
 			break
 		}
@@ -762,6 +790,7 @@ func (r *recorder) partHistory(p partPlan) {
 				return
 			}
 			emitRing(T)
+			query(1, 1, c1, time.Now(), tenants[:1], lbs[:1]) // in the very second of the change
 		}
 	}
 }
@@ -835,14 +864,43 @@ func TestRecord(t *testing.T) {
 			reps = 4
 		}
 		for rep := 0; rep < reps; rep++ {
+			// zone-awareness on: every way of spreading n <= 6 instances over <= 3 zones (balanced and
+			// unbalanced populations), every size up to 2n + zones (far beyond the ring and beyond
+			// what any single zone can supply)
+			k := 0
+			for n := 1; n <= 6; n++ {
+				for a := n; a >= 1; a-- {
+					for b := min(a, n-a); b >= 0; b-- {
+						c := n - a - b
+						if c > b || (b == 0 && c > 0) {
+							continue
+						}
+						var zs []int
+						for _, x := range []int{a, b, c} {
+							if x > 0 {
+								zs = append(zs, x)
+							}
+						}
+						k++
+						if (k+rep)%2 == 0 { // largest zone first or last
+							for i, j := 0, len(zs)-1; i < j; i, j = i+1, j-1 {
+								zs[i], zs[j] = zs[j], zs[i]
+							}
+						}
+						ev := 4
+						if n >= 5 {
+							ev = 3
+						}
+						iplans = append(iplans, instPlan{n: n, tokens: 1 + (k+rep)%3, zones: len(zs), zoneSizes: zs, za: true, oversize: true,
+							tight: (k+rep)%2 == 0, events: ev, tenants: 2, roAtStart: (k + rep) % 3})
+					}
+				}
+			}
 			for n := 1; n <= 5; n++ {
 				for tok := 1; tok <= 3; tok++ {
-					zones := 1 + (n+tok+rep)%3
-					if zones > n {
-						zones = n
+					if (n+tok+rep)%3 == 0 {
+						continue // two of the three token counts per n and repetition
 					}
-					iplans = append(iplans, instPlan{n: n, tokens: tok, zones: zones, za: true, tight: (n+tok+rep)%2 == 0,
-						events: 4, tenants: 3, roAtStart: (n + tok + rep) % 3})
 					iplans = append(iplans, instPlan{n: n, tokens: tok, zones: 1 + (n+rep)%2, za: false, tight: (n+tok+rep)%2 == 1,
 						events: 4, tenants: 3, roAtStart: (n + tok + rep + 1) % 3})
 					pplans = append(pplans, partPlan{n: n, tokens: tok, tight: (n+tok+rep)%2 == 0, events: 5, tenants: 3})
